@@ -59,9 +59,32 @@ def datetime_attr(ex, st, obj, attr, node):
     from .symex import Intrinsic
     if attr in ("month", "day", "hour", "minute", "second"):
         return _out(cal_field(ex, st, obj, attr, node), st)
+    if attr == "replace":
+        return _out(Intrinsic("datetime.replace", dt_replace, recv=obj), st)
     if attr == "weekday":
         return _out(Intrinsic("datetime.weekday", lambda ex_, st_, recv, a, k, n: _out(cal_field(ex_, st_, recv, "weekday", n), st_), recv=obj), st)
     return None
+
+
+WALL = z3.Function("wall_clock_reading_as_naive", R, R)      # dt.replace(tzinfo=None): the same wall-clock fields without a zone, as a position on the naive time line
+
+
+def dt_replace(ex, st, recv, args, kwargs, node):
+    """datetime.replace(tzinfo=None): a new, naive datetime showing the same wall-clock reading (A-LIB); other replacements are not modelled"""
+    if args or set(kwargs) != {"tzinfo"} or kwargs["tzinfo"] is not None:
+        raise _U("datetime.replace other than replace(tzinfo=None)", node)
+    theta = ex.read_field(st, recv, "theta", node)
+    new = ex.alloc_obj(st, "datetime")
+    ex.write_field(st, new, "theta", WALL(theta), node)
+    return _out(new, st)
+
+
+def m_np_datetime64(ex, st, args, kwargs, node):
+    """np.datetime64(naive datetime): the same instant of the naive time line (resolution effects - microseconds - are not modelled)"""
+    (v,) = args
+    if isinstance(v, ty.ObjV) and v.cls == "datetime" and not kwargs:
+        return _out(v, st)
+    raise _U(f"np.datetime64({v!r})", node)
 
 
 def shifted(ex, st, dt, secs, node):
